@@ -14,6 +14,11 @@ import (
 func (p *Path) vpIntrinsic(caller *frame, fn *ssa.Function, name string, args []Value) Value {
 	switch name {
 	case "vp_U64":
+		if p.intMode {
+			v := p.fresh(p.strArg(args[0], "name"), smt.IntS, "int")
+			p.assumeOrStop(smt.And(smt.ILe(smt.ConstIntU(0), v), smt.ILt(v, pow2(64))))
+			return v
+		}
 		return p.fresh(p.strArg(args[0], "name"), smt.BV64, "u64")
 	case "vp_U32":
 		return p.fresh(p.strArg(args[0], "name"), smt.BV32, "u32")
@@ -168,6 +173,58 @@ func (p *Path) vpIntrinsic(caller *frame, fn *ssa.Function, name string, args []
 		}
 		s := args[1].(Str)
 		return p.rxMatch(rx, s.bytesOrAbort(p), true, true)
+	case "vp_ZU":
+		return Struct{p.toInt(args[0])}
+	case "vp_ZPow10":
+		return Struct{smt.ConstInt(bigPow10(int(p.intArg(args[0], "exponent"))))}
+	case "vp_ZAdd":
+		return Struct{smt.IAdd(zOf(args[0]), zOf(args[1]))}
+	case "vp_ZSub":
+		return Struct{smt.ISub(zOf(args[0]), zOf(args[1]))}
+	case "vp_ZMul":
+		a, b := zOf(args[0]), zOf(args[1])
+		if !a.IsConst() && !b.IsConst() {
+			p.abortf("vp_ZMul: symbolic-by-symbolic multiplication (non-linear)")
+		}
+		return Struct{smt.IMul(a, b)}
+	case "vp_ZAbs":
+		return Struct{iabs(zOf(args[0]))}
+	case "vp_ZLe":
+		return smt.ILe(zOf(args[0]), zOf(args[1]))
+	case "vp_ZLt":
+		return smt.ILt(zOf(args[0]), zOf(args[1]))
+	case "vp_ZEq":
+		return smt.Eq(zOf(args[0]), zOf(args[1]))
+	case "vp_TokDecimals":
+		t := args[0].(Str).tok
+		if t == nil {
+			p.abortf("vp_TokDecimals: not a format token")
+		}
+		switch t.Format {
+		case "%d", "%.0f":
+			return intConst(0)
+		case "%.1f":
+			return intConst(1)
+		case "%.2f":
+			return intConst(2)
+		}
+		p.abortf("vp_TokDecimals: unsupported format %q", t.Format)
+	case "vp_TokScaled":
+		// the integer the numeral denotes after removing the decimal point
+		t := args[0].(Str).tok
+		if t == nil {
+			p.abortf("vp_TokScaled: not a format token")
+		}
+		switch t.Format {
+		case "%d":
+			return Struct{p.toInt(t.Arg)}
+		case "%.0f", "%.1f", "%.2f":
+			if t.X == nil {
+				p.abortf("vp_TokScaled: float token outside the Int back end")
+			}
+			return Struct{p.xfScaled(*t.X, int(t.Format[2]-'0'))}
+		}
+		p.abortf("vp_TokScaled: unsupported format %q", t.Format)
 	case "vp_Stub":
 		// vp_Stub("full name of real function", replacement)
 		target := p.strArg(args[0], "target")
@@ -224,3 +281,5 @@ func (p *Path) assumeOrStop(c *smt.Term) {
 }
 
 var _ = fmt.Sprint
+
+func zOf(v Value) *smt.Term { return v.(Struct)[0].(*smt.Term) }
